@@ -951,7 +951,9 @@ def binary(conf_mat):
     if H > 0 and H < 1 and F > 0 and F < 1:
         LOR = math.log(theta)
 
-    MCC = (TP*TN-FP*FN)/math.sqrt((TP+FP)*(TP+FN)*(TN+FP)*(TN+FN))
+    # .. product of the margins as float (it overflows int64 for large tables)
+    MCC = (TP*TN-FP*FN)/math.sqrt(float(Psim)*float(Pobs)
+                                  * float(Nobs)*float(Nsim))
 
     EDS = np.nan
     if TP > 0:
